@@ -19,9 +19,13 @@ def run_prefix(sim, case, upto, st):
             st.sims += 1
 
 
-def sweep(sim, case, st, target=None, max_points=400):
+def sweep(sim, case, st, target=None, max_points=400, modes=('kill', 'intr')):
     """yields (k, n, before_snapshot, result, crash_snapshot) for every crash
-    point of process ``target`` (default: last process of the case)"""
+    point of process ``target`` (default: last process of the case).  Two
+    ways of dying per point: 'kill' = SIGKILL (sticky, nothing of the process
+    runs any more) and 'intr' = SIGINT (KeyboardInterrupt raised once; the
+    process's own except/finally code runs and its calls take effect).  For
+    'intr' k is reported as ('intr', k)."""
     procs = case['procs']
     ti = len(procs) - 1 if target is None else target
     sim.setup(case)
@@ -37,12 +41,18 @@ def sweep(sim, case, st, target=None, max_points=400):
     if len(ks) > max_points:
         step = len(ks) / float(max_points)
         ks = sorted(set(int(i * step) for i in range(max_points)) | {0, n})
-    for k in ks:
-        sim.setup(case)
-        run_prefix(sim, case, ti, st)
-        spec = dict(procs[ti], kill_at_mut=k)
-        r = sim.run(spec)
-        st.sims += 1
-        st.ops += r.nops
-        st.crashpoints += 1
-        yield (k, n, before, r, sim.snap())
+    only = case.get('only_crash')      # replay of one pinned crash point
+    for mode in modes:
+        for k in ks:
+            if only is not None and [mode, k] != list(only):
+                continue
+            if mode == 'intr' and k >= n:
+                continue
+            sim.setup(case)
+            run_prefix(sim, case, ti, st)
+            spec = dict(procs[ti], **({'kill_at_mut': k} if mode == 'kill' else {'intr_at_mut': k}))
+            r = sim.run(spec)
+            st.sims += 1
+            st.ops += r.nops
+            st.crashpoints += 1
+            yield (k if mode == 'kill' else ('intr', k), n, before, r, sim.snap())
